@@ -160,14 +160,24 @@ def check_one(ck, r, fn, m, d, failures, lay=0, label=''):
         failures.append(tag + '.write')
 
 
+# message lengths at which the b_0 input Z_pad || msg || l_i_b || 0 || DST' (64 + m + 3 + d + 1 bytes) reaches 128 / 256 bytes, for two DST lengths,
+# and an oversize DST (DST' is 33 bytes): where an implementation that assembles msg' in a fixed buffer or counts blocks changes behaviour
+BOUNDARY = [(T - 68 - d, d) for d in (16, 49) for T in (127, 128, 129, 255, 256, 257)] + [(T - 68 - 32, 300) for T in (255, 256, 257)]
+# thorough: every message length 0..320 for four DST lengths (short, suite-sized, longest short, oversize)
+SWEEP = [(m, d) for d in (21, 49, 255, 300) for m in range(0, 321)]
+
+
 def run(tier, seed):
     ck = Check('C08', tier, seed, level='model_checking')
     if tier == 'quick':
         ms, ds = [0, 1, 3, 16, 64, 128], [1, 2, 15, 16, 17, 254, 255, 256, 257, 300]
         combos = [(m, d) for m in ms for d in ds if (m in (0, 3, 64) or d in (1, 16, 255, 256, 300))] + [(1, 65536)]   # a DST whose length does not fit 16 bits
+        combos += BOUNDARY
     else:
         ms, ds = [0, 1, 2, 3, 4, 5, 6, 7, 8, 55, 56, 63, 64, 65, 128, 512], list(range(1, 301))
         combos = [(m, d) for d in ds for m in ((0, 3, 64) if d not in (1, 16, 255, 256, 300) else ms)] + [(1, 65535), (1, 65536), (1, 65537), (0, 65791), (2, 131072)]
+        combos += SWEEP
+        combos = list(dict.fromkeys(combos))
     jobs = []
     for fn in (0, 1):
         for (m, d) in combos:
@@ -230,7 +240,7 @@ def run(tier, seed):
 
 def battery(ck, failures, combos):
     from props import fallback
-    cases = fallback.cases_for('C08', ck.seed)
+    cases = fallback.length_cases('C08', failures, ck.seed) + fallback.cases_for('C08', ck.seed)
     path = ck.save_replay({'property': ck.pid, 'cases': cases, 'failed': failures[:10]})
     ok, out = core.go_test(path)
     if ok:
